@@ -1148,7 +1148,16 @@ func stepApply(o *Out, c *typCtx, up *merge.Updater, ig ignoreCfg, st *updState,
 				o.Fail("C08", "updater/failure-returns-no-object", err.Error(), "updater/failure-returns-no-object "+op, op)
 			}
 			if !st.conv.degraded() {
-				o.Fail("C06", "apply-fails-only-with-conflicts", err.Error(), "apply-fails-only-with-conflicts "+op, op)
+				_, hadRecord := pre[mgr]
+				if ig.kind != "none" && (hadRecord || st.tainted) && strings.Contains(err.Error(), "omits key field") {
+					// finding D8 in its hardest form: under an ignore configuration the re-apply prunes a key
+					// field the applier's previous record held (the ignored fields of the item stay), the
+					// item loses its key and the apply itself fails on the mutilated object
+					st.tainted = true
+					o.Fail("C19", "live-object-valid-under-ignore", err.Error(), "live-object-valid-under-ignore/D8-prune-under-ignore-configuration "+op, op)
+				} else {
+					o.Fail("C06", "apply-fails-only-with-conflicts", err.Error(), "apply-fails-only-with-conflicts "+op, op)
+				}
 			}
 			return "err"
 		}
